@@ -136,7 +136,7 @@ pub fn key(frame: u32, x: i32, y: i32, w: u32, h: u32) -> SliceKey {
     SliceKey { frame, x, y, w, h, center: (0, 0, 0, 0), pivot: (0, 0) }
 }
 pub fn ext_files(v: Vec<(u32, &str)>) -> Body {
-    Body::ExternalFiles(ExternalFiles { count: None, reserved: [0; 8], entries: v.into_iter().map(|(id, n)| ExtFile { id, ty: 0, reserved: [0; 7], name: Str::new(n) }).collect() })
+    Body::ExternalFiles(ExternalFiles { count: None, reserved: [0; 8], entries: v.into_iter().enumerate().map(|(i, (id, n))| ExtFile { id, ty: [2u8, 3, 0, 1][i % 4], reserved: [0; 7], name: Str::new(n) }).collect() })
 }
 pub fn srgb_profile() -> Body {
     Body::ColorProfile(ColorProfile { ty: 1, flags: 0, gamma: 0, reserved: [0; 8], icc: None })
